@@ -53,6 +53,27 @@ fn collect_strings(v: &J, out: &mut BTreeSet<String>, res: &mut BTreeSet<String>
     }
 }
 
+fn collect_svar_names(v: &J, out: &mut BTreeSet<String>) {
+    match v {
+        J::Object(m) => {
+            if m.get("k").and_then(|k| k.as_str()) == Some("svar") {
+                if let Some(n) = m.get("name").and_then(|n| n.as_str()) {
+                    out.insert(n.to_string());
+                }
+            }
+            for (_, x) in m {
+                collect_svar_names(x, out);
+            }
+        }
+        J::Array(a) => {
+            for x in a {
+                collect_svar_names(x, out);
+            }
+        }
+        _ => {}
+    }
+}
+
 pub const MAX_SUBJECT_CHARS: usize = 40;
 pub const MAX_TABLES: usize = 250;
 
@@ -238,6 +259,10 @@ fn prepare_one(case: &mut J, sources: &[Src], layout_rng: Option<Rng>) {
         }
     }
     case["lorder"] = json!(lorder);
+    // names of scoped variables in the order the library forces them at the end of lazy evaluation (sorted)
+    let mut names = BTreeSet::new();
+    collect_svar_names(&case["prog"], &mut names);
+    case["svnames"] = json!(names.into_iter().collect::<Vec<_>>());
     case["retab"] = json!(regex_tables(case, src));
     if case.get("cancel_at").is_none() {
         case["cancel_at"] = json!(0);
